@@ -22,7 +22,8 @@ def split_line(line):
 
 
 def run_case(job):
-    cid, recs, tsv, storage = job
+    cid, recs, tsv, storage = job[:4]
+    filler = job[4] if len(job) > 4 else 0      # rows of other reads written in front of the real ones (a whole-genome haplotag list)
     import readers as _rd
 
     _rd.CASE = str(cid)
@@ -33,6 +34,8 @@ def run_case(job):
         write_text(gaf, join_lines(lines, cid), storage, block=150)
         tp = os.path.join(d, "h.tsv")
         with open(tp, "w") as f:
+            for k in range(filler):
+                f.write(f"other_read_{k:07d}\tH{1 + k % 2}\t{1000 + k % 977}\tchr{1 + k % 22}\n")
             for row in tsv:
                 f.write("\t".join(row) + "\n")
         out = os.path.join(d, "out.gaf")
@@ -72,7 +75,7 @@ def run(ctx):
     # large files: output written in batches has its boundaries there (1000, 4096, 8192, ...)
     for bi, n in enumerate([10000, 4097] if ctx.thorough else [8200]):
         recs = [DATA["recs"][(7 * k + k // 11) % len(DATA["recs"])] for k in range(n)]
-        jobs.append((f"big{bi}", recs, DATA["tsvs"][3 + bi], "bgzf" if bi else "plain"))
+        jobs.append((f"big{bi}", recs, DATA["tsvs"][3 + bi], "bgzf" if bi else "plain", 650000 if bi == 0 else 0))      # > 16 MiB of TSV in front
     cases = pool_map(run_case, jobs, chunk=16)
     ctx.evaluations += len(cases)
     for c in cases:
